@@ -129,6 +129,7 @@ def work(spec):
             continue
         part["stats"]["rewrites-replayed"] += rp.steps
         part["stats"]["ties-on-all-keys"] += rp.ties
+        part["stats"]["rewrites-whose-pass-number-is-not-their-index"] += rp.pass_mismatch
         part["stats"]["streams:" + (spec["family"] if spec["kind"] == "fam" else "random")] += nstreams
         if rp.final_rewritable is False:
             part["stats"]["ran-to-fixpoint"] += 1
